@@ -441,14 +441,18 @@ impl Serialize for dyn Rule {
         let property_count = properties.len();
         let rule_name = self.get_name();
 
-        if property_count == 0 {
+        let metadata = self.metadata();
+        let has_filters =
+            !metadata.apply_to_filters.is_empty() || !metadata.skip_filters.is_empty();
+
+        if property_count == 0 && !has_filters {
             serializer.serialize_str(rule_name)
         } else {
-            let mut map = serializer.serialize_map(Some(property_count + 1))?;
+            let filter_count = usize::from(!metadata.apply_to_filters.is_empty())
+                + usize::from(!metadata.skip_filters.is_empty());
+            let mut map = serializer.serialize_map(Some(property_count + filter_count + 1))?;
 
             map.serialize_entry("rule", rule_name)?;
-
-            let metadata = self.metadata();
 
             if !metadata.apply_to_filters.is_empty() {
                 let filters = metadata
@@ -464,7 +468,7 @@ impl Serialize for dyn Rule {
                 }
             }
 
-            if !metadata.apply_to_filters.is_empty() {
+            if !metadata.skip_filters.is_empty() {
                 let filters = metadata
                     .skip_filters
                     .iter()
